@@ -45,6 +45,12 @@ FIXED.update({
  "patterns on enum variants with void fields": ("C02,C01,C14", "match Ev.Va(5, nil) { .Va(n, _) -> n .. } faults; 1 + match En.Dd(nil) { .Dd(_) -> 9 .. } prints 9"),
  "the line reported for a runtime error in a multi-line expression": ("C05,C32", "vh_emit_int(x ^ {\n x\n}) with x = -7: error line differs between optimized and unoptimized builds"),
  "editor queries panicked on any file containing a task block": ("C34", "`task { 1 }`: definition_at / type_at / completions_at hit unimplemented!()"),
+ "an interface implementation that lists its methods in another order": ("C22", "interface Tri { one two three }; implement Tri for Pa { two one three }: Tri.one(p) runs `two`"),
+ "a lambda capturing values of a generic type shared one code label": ("C22,C01", "fn lamshow(x: T ToString) -> string { let f = () -> \"<\" .. x .. \">\"; f() } called at two types: the second instantiation runs the first one's code (VM type fault)"),
+ "a task block capturing values of a generic type crashed the compiler": ("C22,C03", "fn taskshow(x: T ToString) { task { c.write(\"\" .. x) } }: assertion overload_ty.monotype().is_some() in the translator"),
+ "exhaustiveness checking panicked on a wildcard arm after a pattern on a generic variant": ("C04,C12", "fn mk() -> result<void, string>; match mk() { .ok(_) -> 1  _ -> 2 }: index out of bounds in pat_exhaustiveness.rs"),
+ "a function with two parameters of the same name and a default argument crashed": ("C04", "fn f(a, a, b = 3) = b ; f(1, 2): index out of bounds in calculate_named_arg_order"),
+ "parse time was exponential in the nesting depth of parenthesised expressions": ("C04", "(a = (a = ( ... 1))) nested 24 deep does not finish in a minute"),
  "looking up an interface implementation panicked": ("C04,C34", 'type Gg = { aa: string = "x"! } ; implement ToString for <undefined type>'),
  "an array type annotation without a type argument": ("C04,C34", "let a: array<> = [1]"),
  "the push/pop peephole underflowed": ("C04", "type Gg = {..}; Gg as an expression statement: subtract with overflow in the optimizer"),
